@@ -10,10 +10,17 @@ package main
 //   - f()  with f a local function variable: EVERY value f is ever given must be the method value X.Text (bound to the
 //          live scanner: pointer receiver or pointer operand) or a literal `func() string { return X.Text() }`.
 //          Each such value is one instance of the rule (a table of line sources has one row per scanner);
-//   - a local with a single definition, evaluated in the same loop iteration as the use, is looked through.
+//   - a local with a single definition, evaluated in the same loop iteration as the use, is looked through;
+//   - line, ok = f()  with f a local function variable of type func() (string, bool) — a "pull iterator" that hides
+//          which scanner is read: every definition of line is such a call of the same f, the use is reached only
+//          when ok holds (`for line, ok := f(); ok; line, ok = f()`, or `line, ok := f(); if !ok { leave }` in the
+//          loop body), and EVERY value f is ever given is a literal each of whose returns is either `X.Text(), <e>`
+//          or `<anything>, false` (the line of a return that reports false is never looked at). One instance per
+//          value, as above.
 
 import (
 	"go/ast"
+	"go/constant"
 	"go/token"
 	"go/types"
 )
@@ -92,7 +99,23 @@ func c16hSources(info *types.Info, par map[ast.Node]ast.Node, defs *c15Defs, fd 
 				return defStmt == nil
 			})
 			if defStmt != nil && c15LoopOf(par, defStmt) == c15LoopOf(par, use) {
+				if cl, isCall := unparen(defs.def[o]).(*ast.CallExpr); isCall {
+					if tv, has := info.Types[cl]; has {
+						if _, isTuple := tv.Type.(*types.Tuple); isTuple {
+							// line, ok := f(): judged below
+							if out := c16hPulled(info, par, defs, fd, use, o); out != nil {
+								return out
+							}
+							return bad(arg)
+						}
+					}
+				}
 				return c16hSources(info, par, defs, fd, use, defs.def[o])
+			}
+		}
+		if o, isVar := info.ObjectOf(id).(*types.Var); isVar && !o.IsField() {
+			if out := c16hPulled(info, par, defs, fd, use, o); out != nil {
+				return out
 			}
 		}
 		return bad(arg)
@@ -115,12 +138,25 @@ func c16hSources(info *types.Info, par map[ast.Node]ast.Node, defs *c15Defs, fd 
 	if _, isFunc := f.Type().Underlying().(*types.Signature); !isFunc {
 		return bad(arg)
 	}
-	// every value the function variable is given
+	if out := c16hFuncVarSources(info, fd, fid, f, false); out != nil {
+		return out
+	}
+	// a parameter, a variable written through a pointer or by a multi-value assignment: the values cannot be listed
+	return bad(arg)
+}
+
+// c16hFuncVarSources: one source per value the local function variable f is ever given in fd (nil: the values cannot
+// be listed). pull = f is a pull iterator func() (string, bool) whose first result is looked at only when the second
+// holds; otherwise f is func() string.
+func c16hFuncVarSources(info *types.Info, fd *ast.FuncDecl, fid *ast.Ident, f *types.Var, pull bool) []c16hSource {
 	var out []c16hSource
 	value := func(e ast.Expr) {
 		e = unparen(e)
 		switch t := e.(type) {
 		case *ast.SelectorExpr:
+			if pull {
+				break
+			}
 			// the method value X.Text, bound to the scanner itself (not to a copy of it)
 			if sl := info.Selections[t]; sl != nil && sl.Kind() == types.MethodVal && t.Sel.Name == "Text" {
 				live := false
@@ -140,6 +176,40 @@ func c16hSources(info *types.Info, par map[ast.Node]ast.Node, defs *c15Defs, fd 
 				return
 			}
 		case *ast.FuncLit:
+			if pull {
+				// every return of the literal itself: `X.Text(), e` or `_, false`
+				var lines []ast.Expr
+				good := true
+				ast.Inspect(t.Body, func(n ast.Node) bool {
+					switch r := n.(type) {
+					case *ast.FuncLit:
+						return false
+					case *ast.ReturnStmt:
+						if len(r.Results) != 2 {
+							good = false // (named results / a forwarded tuple: not listed)
+							return false
+						}
+						if tv, has := info.Types[r.Results[1]]; has && tv.Value != nil && tv.Value.Kind() == constant.Bool && !constant.BoolVal(tv.Value) {
+							return false
+						}
+						if !c16hIsTextCall(info, r.Results[0]) {
+							good = false
+							out = append(out, c16hSource{false, types.ExprString(fid) + "() with " + types.ExprString(fid) + " = func() { …; return " + types.ExprString(r.Results[0]) + ", " + types.ExprString(r.Results[1]) + " }", r.Pos()})
+							return false
+						}
+						lines = append(lines, r.Results[0])
+					}
+					return true
+				})
+				if good && len(lines) > 0 {
+					out = append(out, c16hSource{true, types.ExprString(fid) + " = func() { …; return " + types.ExprString(lines[0]) + ", true }", t.Pos()})
+					return
+				}
+				if !good && len(out) > 0 && !out[len(out)-1].ok {
+					return
+				}
+				break
+			}
 			body := c15Flat(t.Body.List)
 			if len(body) == 1 {
 				if rs, ok := body[0].(*ast.ReturnStmt); ok && len(rs.Results) == 1 && c16hIsTextCall(info, rs.Results[0]) {
@@ -191,8 +261,119 @@ func c16hSources(info *types.Info, par map[ast.Node]ast.Node, defs *c15Defs, fd 
 		return true
 	})
 	if escaped || len(out) == 0 {
-		// a parameter, a variable written through a pointer or by a multi-value assignment: the values cannot be listed
-		return bad(arg)
+		return nil
 	}
 	return out
+}
+
+// c16hPulled: the local `line` is only ever defined by `line, ok = f()` of one local function variable f, and the use
+// is reached only when that ok holds. Returns the sources of f's values (nil = not this shape / cannot be listed).
+func c16hPulled(info *types.Info, par map[ast.Node]ast.Node, defs *c15Defs, fd *ast.FuncDecl, use *ast.CallExpr, line *types.Var) []c16hSource {
+	var sites []*ast.AssignStmt
+	var okVar, f *types.Var
+	var fid *ast.Ident
+	shape := true
+	ast.Inspect(fd.Body, func(n ast.Node) bool {
+		as, isA := n.(*ast.AssignStmt)
+		if !isA || !shape {
+			return shape
+		}
+		for i, l := range as.Lhs {
+			id, isID := unparen(l).(*ast.Ident)
+			if !isID || info.ObjectOf(id) != types.Object(line) {
+				continue
+			}
+			if i != 0 || len(as.Lhs) != 2 || len(as.Rhs) != 1 || (as.Tok != token.ASSIGN && as.Tok != token.DEFINE) {
+				shape = false
+				return false
+			}
+			cl, isCall := unparen(as.Rhs[0]).(*ast.CallExpr)
+			gid, isG := unparen(as.Lhs[1]).(*ast.Ident)
+			if !isCall || len(cl.Args) != 0 || !isG {
+				shape = false
+				return false
+			}
+			g, _ := info.ObjectOf(gid).(*types.Var)
+			cid, isC := unparen(cl.Fun).(*ast.Ident)
+			if g == nil || g.IsField() || !isC {
+				shape = false
+				return false
+			}
+			fv, _ := info.ObjectOf(cid).(*types.Var)
+			if fv == nil || fv.IsField() || fv.Pkg() == nil || fv.Parent() == fv.Pkg().Scope() {
+				shape = false
+				return false
+			}
+			sig, isSig := fv.Type().Underlying().(*types.Signature)
+			if !isSig || sig.Results().Len() != 2 {
+				shape = false
+				return false
+			}
+			if (okVar != nil && okVar != g) || (f != nil && f != fv) {
+				shape = false
+				return false
+			}
+			okVar, f, fid = g, fv, cid
+			sites = append(sites, as)
+		}
+		return true
+	})
+	// no other definition of line or ok (an address taken, ++, range, op-assign count twice in c15Defs)
+	if !shape || len(sites) == 0 || defs.count[line] != len(sites) || defs.count[okVar] != len(sites) {
+		return nil
+	}
+	isOK := func(e ast.Expr) bool {
+		id, isID := unparen(e).(*ast.Ident)
+		return isID && info.ObjectOf(id) == types.Object(okVar)
+	}
+	within := func(n, root ast.Node) bool {
+		for ; n != nil; n = par[n] {
+			if n == root {
+				return true
+			}
+		}
+		return false
+	}
+	guarded := false
+	switch len(sites) {
+	case 2:
+		// for line, ok := f(); ok; line, ok = f() { use }
+		if fs, isFor := par[sites[0]].(*ast.ForStmt); isFor && par[sites[1]] == ast.Node(fs) &&
+			((fs.Init == ast.Stmt(sites[0]) && fs.Post == ast.Stmt(sites[1])) || (fs.Init == ast.Stmt(sites[1]) && fs.Post == ast.Stmt(sites[0]))) &&
+			fs.Cond != nil && isOK(fs.Cond) && within(use, fs.Body) {
+			guarded = true
+		}
+	case 1:
+		// line, ok := f(); if !ok { leave }; ...use...   in one statement list of the loop the use is in
+		var list []ast.Stmt
+		switch p := par[sites[0]].(type) {
+		case *ast.BlockStmt:
+			list = p.List
+		case *ast.CaseClause:
+			list = p.Body
+		case *ast.CommClause:
+			list = p.Body
+		}
+		at := -1
+		for i, st := range list {
+			if st == ast.Stmt(sites[0]) {
+				at = i
+			}
+		}
+		if at >= 0 && at+1 < len(list) && c15LoopOf(par, sites[0]) == c15LoopOf(par, use) {
+			if ifs, isIf := list[at+1].(*ast.IfStmt); isIf && ifs.Init == nil && ifs.Else == nil && c15Terminates(ifs.Body.List) && !containsNode(ifs.Body, func(m ast.Node) bool { b, isB := m.(*ast.BranchStmt); return isB && b.Tok == token.GOTO }) {
+				if ue, isNot := unparen(ifs.Cond).(*ast.UnaryExpr); isNot && ue.Op == token.NOT && isOK(ue.X) {
+					for _, st := range list[at+2:] {
+						if within(use, st) {
+							guarded = true
+						}
+					}
+				}
+			}
+		}
+	}
+	if !guarded {
+		return nil
+	}
+	return c16hFuncVarSources(info, fd, fid, f, true)
 }
